@@ -85,7 +85,8 @@ def topoSteps : Nat → TopoRun → Parser TopoRun
     -- admissibility is a property of the state at each `next` call (edits happen in between)
     let isNext := fun (ts : List String) => some (ts.head? == some "N", ts)
     let atNext ← isNext
-    let r := if atNext then { r with adm := r.adm && admState r.g r.root r.emitted } else r
+    -- hypotheses of c15_exhaustive_hist at every call: admissible state and a live root
+    let r := if atNext then { r with adm := r.adm && admState r.g r.root r.emitted && r.g.containsNode r.root } else r
     let r' ← topoStep r
     topoSteps n r'
 
